@@ -19,6 +19,7 @@ mod p_c04;
 mod p_c05;
 mod p_c06;
 mod p_c07;
+mod p_c07s;
 mod p_c08;
 mod p_c09;
 mod p_c10;
